@@ -384,7 +384,26 @@ def rser_request_envelope_keeps_params(ctx):
     c15.r12_derived_writers_mirror_their_readers(ctx)
 
 
-LIB_RULES = [r8_builders_hand_out_their_bytes, r7_transports_send_the_text_they_are_given, r6_builders_do_not_panic, rser_request_envelope_keeps_params, rkey_named_keys_are_json_strings, r1_rollback, r2_build, r3_impls, r4_batch_builder, r5_builders_wrap_their_own_kind]
+def r9_builder_wrappers_forward_every_value(ctx):
+    """`ArrayParams::insert` / `ObjectParams::insert` hand the value to the builder - every value, unconditionally: one
+    call (ParamsBuilder::insert / insert_named), no branch. A shortcut keyed on the *type* (zero-sized values `all encode
+    as null`) emits something else than the value's own serialisation: `[T; 0]` is `[]`, an empty struct `{}`, a marker
+    type with a hand-written Serialize whatever that writes."""
+    F, R = ctx.F, ctx.R
+    n = 0
+    for nm, inner in (("ArrayParams", r"ParamsBuilder::insert$"), ("ObjectParams", r"ParamsBuilder::insert_named$")):
+        b = F.one(r"^jsonrpsee_core::params::%s::insert$" % nm)
+        R.fn(b)
+        n += 1
+        calls = [c for c in b.calls if not c.exp]
+        fwd = [c for c in calls if re.search(inner, c.name() or "")]
+        other = [c for c in calls if c not in fwd]
+        sw = [bi for bi, blk in enumerate(b.blocks) if bi in b.reachable and not blk.get("cleanup") and blk["term"] and blk["term"]["t"] == "switch"]
+        R.check(len(fwd) == 1 and not other and not sw, "C20.R9", "%s::insert:forwards" % nm, "%s::insert is one unconditional call of the builder" % nm, "%s::insert is no longer a plain forward to the builder (%d forwards, other calls %s, %d branches): some values are not encoded by their own Serialize impl" % (nm, len(fwd), sorted({short(c.name()) for c in other})[:4], len(sw)), "%s:%d" % (b.file, b.lo))
+    R.floor("C20.R9", n, 2, "insert wrappers")
+
+
+LIB_RULES = [r9_builder_wrappers_forward_every_value, r8_builders_hand_out_their_bytes, r7_transports_send_the_text_they_are_given, r6_builders_do_not_panic, rser_request_envelope_keeps_params, rkey_named_keys_are_json_strings, r1_rollback, r2_build, r3_impls, r4_batch_builder, r5_builders_wrap_their_own_kind]
 CONFIGS_QUICK = ["libs-all", "corpus"]
 CONFIGS_THOROUGH = ["libs-all", "facade-full", "corpus"]
 
